@@ -2,6 +2,7 @@ package mon
 
 import (
 	"fmt"
+	"net"
 	"regexp"
 	"sync"
 	"unsafe"
@@ -197,6 +198,37 @@ func c16ReadOnly(w *core.W, j int) {
 		return
 	}
 	wit := map[string]any{"model_wire": hx(mm.Wire())}
+	if j%2 == 1 {
+		// values as a program (not the wire or the zone parser) may build them: addresses in their
+		// 16-octet form, APL prefixes with host bits set beyond the prefix length
+		all := append(append(append([]dns.RR{}, built.Answer...), built.Ns...), built.Extra...)
+		all = append(all, &dns.APL{Hdr: dns.RR_Header{Name: "apl.example.", Rrtype: dns.TypeAPL, Class: 1}, Prefixes: []dns.APLPrefix{
+			{Network: net.IPNet{IP: net.IP{198, 51, 103, 255}, Mask: net.CIDRMask(22, 32)}},
+			{Negation: true, Network: net.IPNet{IP: net.ParseIP("2001:db8:ffff::1"), Mask: net.CIDRMask(35, 128)}}}})
+		built.Extra = append(built.Extra, all[len(all)-1])
+		for _, rr := range all {
+			switch x := rr.(type) {
+			case *dns.A:
+				if ip4 := x.A.To4(); ip4 != nil {
+					x.A = ip4.To16()
+				}
+			case *dns.APL:
+				for i := range x.Prefixes {
+					ip := x.Prefixes[i].Network.IP
+					if len(ip) > 0 {
+						ip[len(ip)-1] |= 0x01
+					}
+				}
+			case *dns.OPT:
+				for _, o := range x.Option {
+					if sn, ok := o.(*dns.EDNS0_SUBNET); ok && sn.Family == 1 && len(sn.Address) == 4 {
+						sn.Address = sn.Address.To16()
+					}
+				}
+			}
+		}
+		w.Count("readonly_noncanonical_values", 1)
+	}
 	ops := []struct {
 		name string
 		f    func(m *dns.Msg)
